@@ -216,4 +216,119 @@ theorem keys_mapVal (g : Bytes × J → J) (kvs : List (Bytes × J)) :
     (kvs.map fun kv => (kv.1, g kv)).map Prod.fst = kvs.map Prod.fst := by
   simp [List.map_map, Function.comp_def]
 
+
+/-! ## numerals the way Go reads them: `strconv.ParseFloat(·, 64)`
+
+`BuiltinType.FilterJson` for `int` first tries `json.Unmarshal` into `int64`
+(`strconv.ParseInt`: integer syntax, in range) and otherwise into `float64`
+(`strconv.ParseFloat`: the decimal literal is rounded to the nearest binary64,
+ties to even; `ErrRange` when the rounded value is beyond the largest finite
+float), then `i := int64(tmp); float64(i) == tmp`.  `IsValidJson`/`FilterJson`
+for `float` use the same `ParseFloat`.  Below the literal `± a·10^e` is kept
+exact (`a`, `e` integers) and ONLY the rounding the code performs is modelled:
+`round64` is the exact value of the float64 `ParseFloat` returns. -/
+namespace Num
+
+/-- the exact value `(-1)^neg · mant · 2^exp2` of a finite float64, or overflow
+(`ParseFloat` returns ±Inf with `ErrRange`) -/
+inductive F64 where
+  | fin (neg : Bool) (mant : Nat) (exp2 : Int)
+  | inf
+  deriving DecidableEq, Repr, Inhabited
+
+/-- `num/den` rounded to the nearest integer, ties to even -/
+def roundHalfEven (num den : Nat) : Nat :=
+  let q := num / den
+  let r := num % den
+  if 2 * r < den then q else if den < 2 * r then q + 1 else if q % 2 = 0 then q else q + 1
+
+/-- `2^k ≤ N/D` -/
+def geP2 (N D : Nat) (k : Int) : Bool :=
+  if 0 ≤ k then decide (D * 2 ^ k.toNat ≤ N) else decide (D ≤ N * 2 ^ (-k).toNat)
+
+/-- `N/D` (`N, D > 0`) rounded to the binary64 grid, exponent range unbounded
+above: `(M, s)` with value `M·2^s`, where `s = max(⌊log₂(N/D)⌋ - 52, -1074)`
+(52 fraction bits; -1074 = exponent of the smallest subnormal) and
+`M = RNE(N / (D·2^s)) ≤ 2^53`. -/
+def roundPos (N D : Nat) : Nat × Int :=
+  let k1 : Int := (Nat.log2 N : Int) - (Nat.log2 D : Int)
+  let k : Int := if geP2 N D k1 then k1 else k1 - 1
+  let s : Int := if k - 52 < -1074 then -1074 else k - 52
+  let M := if 0 ≤ s then roundHalfEven N (D * 2 ^ s.toNat)
+           else roundHalfEven (N * 2 ^ (-s).toNat) D
+  (M, s)
+
+def numDigits (n : Nat) : Nat := (Nat.toDigits 10 n).length
+
+/-- `strconv.ParseFloat` of the decimal literal `m·10^e`.  The two guards keep
+absurd exponents from being exponentiated: beyond `10^401` every non-zero
+literal overflows; below `10^-400` every literal rounds to zero (underflow is
+no error). -/
+def round64 (m e : Int) : F64 :=
+  let a := m.natAbs
+  let neg := decide (m < 0)
+  if a = 0 then .fin neg 0 0
+  else if 400 < e then .inf
+  else if e < -(400 + (numDigits a : Int)) then .fin neg 0 0
+  else
+    let Ms := if 0 ≤ e then roundPos (a * 10 ^ e.toNat) 1 else roundPos a (10 ^ (-e).toNat)
+    if 0 ≤ Ms.2 ∧ 2 ^ 1024 ≤ Ms.1 * 2 ^ Ms.2.toNat then .inf else .fin neg Ms.1 Ms.2
+
+/-- the integer a finite float64 is, if it is one -/
+def F64.int? : F64 → Option Int
+  | .inf => none
+  | .fin neg M s =>
+    let v? : Option Nat :=
+      if 0 ≤ s then some (M * 2 ^ s.toNat)
+      else if M % 2 ^ (-s).toNat = 0 then some (M / 2 ^ (-s).toNat) else none
+    v?.map fun v => if neg then -(v : Int) else (v : Int)
+
+def toF64 : Num → F64
+  | .int v => round64 v 0
+  | .flt m e => round64 m e
+
+/-- What `FilterJson` for `int` decides once `int64` parsing has failed:
+`tmp := ParseFloat(lit)`, `i := int64(tmp)`, accepted iff `float64(i) == tmp`,
+i.e. iff the ROUNDED value is an integer in `[-2^63, 2^63)` (on amd64 an
+out-of-range conversion yields `-2^63`, whose float differs from `tmp` unless
+`tmp = -2^63`); the result is that integer – which is the literal's value only
+when the literal is exactly representable. -/
+def goInt? (n : Num) : Option Int :=
+  match n.toF64.int? with
+  | some i => if minInt64 ≤ i ∧ i ≤ maxInt64 then some i else none
+  | none => none
+
+/-- `ParseFloat` does not report `ErrRange` (an `int64`-range integer literal
+never does: `2^63 < 2^1024`) -/
+def finite64 : Num → Bool
+  | .int v => inInt64 v || (round64 v 0 != .inf)
+  | .flt m e => round64 m e != .inf
+
+/-- the literal's value is a binary64 number: rounding changes nothing.  Outside
+this class – and only there – the code's decisions differ from exact decimal
+arithmetic (`intValue?`). -/
+def exact64 (n : Num) : Bool :=
+  match n, n.toF64 with
+  | _, .inf => false
+  | .int v, .fin neg M s =>
+    if 0 ≤ s then (if neg then -((M * 2 ^ s.toNat : Nat) : Int) else ((M * 2 ^ s.toNat : Nat) : Int)) == v
+    else (if neg then -(M : Int) else (M : Int)) == v * 2 ^ (-s).toNat
+  | .flt m e, .fin neg M s =>
+    -- ± M·2^s = m·10^e, cross-multiplied to integers
+    let lhs : Int := if neg then -(M : Int) else (M : Int)
+    let (l2, r2) : Int × Int := if 0 ≤ s then (lhs * 2 ^ s.toNat, m) else (lhs, m * 2 ^ (-s).toNat)
+    if 0 ≤ e then l2 == r2 * 10 ^ e.toNat else l2 * 10 ^ (-e).toNat == r2
+
+theorem goInt?_inInt64 {n : Num} {i : Int} (h : n.goInt? = some i) : inInt64 i = true := by
+  unfold goInt? at h
+  split at h
+  · split at h
+    · rename_i hr
+      injection h with h; subst h
+      simp [inInt64, hr.1, hr.2]
+    · cases h
+  · cases h
+
+end Num
+
 end Martian.Json
